@@ -208,6 +208,54 @@ func checkC18(c *Ctx, r *Report) {
 			}
 		}
 	}
+	// the stored body must not alias storage that a later call reuses: the translator's result is a
+	// slice of the translator's own buffer, so the translator has to be created by this very call
+	// (or the result copied)
+	if fn != nil {
+		for _, ci := range allCalls(fn) {
+			if !strings.HasSuffix(callName(ci.Common()), ".Translate") && !(ci.Common().IsInvoke() && ci.Common().Method.Name() == "Translate") {
+				continue
+			}
+			o := r.Add("C18-wrap", fnName(fn), "translated body does not alias shared storage", c.pos(ci.Pos()))
+			recv := ci.Common().Value
+			if !ci.Common().IsInvoke() && len(ci.Common().Args) > 0 {
+				recv = ci.Common().Args[0]
+			}
+			shared := dependsOn(recv, func(v ssa.Value) bool {
+				switch x := v.(type) {
+				case *ssa.Global:
+					return true
+				case *ssa.Lookup:
+					_ = x
+					return true
+				}
+				return false
+			})
+			fresh := dependsOn(recv, func(v ssa.Value) bool {
+				call, ok := v.(*ssa.Call)
+				return ok && strings.HasSuffix(callName(&call.Call), "charset.TranslatorTo")
+			})
+			copied := false
+			for _, ret := range returnsOf(fn) {
+				if call, ok := resOf(ret, 0).(*ssa.Call); ok {
+					switch callName(&call.Call) {
+					case "builtin.append", "bytes.Clone", "slices.Clone":
+						copied = true
+					}
+				}
+			}
+			switch {
+			case copied:
+				o.OK("the result is copied before it is returned")
+			case shared:
+				o.Bad("the translator comes from shared state (package-level variable or map): its result is a slice of the translator's own buffer, which the next call overwrites - a body stored earlier changes when another body is set")
+			case fresh:
+				o.OK("the translator is created by this call (charset.TranslatorTo), so its output buffer is not shared")
+			default:
+				o.Bad("cannot establish that the translator is private to this call")
+			}
+		}
+	}
 	sizeRule(c, r, "C18-size")
 
 	// ---- C18-label
@@ -451,6 +499,36 @@ func checkC09(c *Ctx, r *Report) {
 				o.OK("readSection compares the line after a section with \"\\r\\n\"")
 			} else {
 				o.Bad("readSection does not check the section terminator against \"\\r\\n\"")
+			}
+		}
+		if rs != nil {
+			// the terminator is consumed on every successful path (whatever the reader has buffered)
+			o = r.Add("C09-delims", "fbb.readSection", "terminator consumed before every successful return", c.pos(rs.Pos()))
+			var term []ssa.CallInstruction
+			for _, ci := range callsTo(rs, false, "bufio.Reader.ReadString", "bufio.Reader.ReadBytes", "bufio.Reader.ReadLine", "bufio.Reader.Discard") {
+				if ci.Common().Args[0] == ssa.Value(rs.Params[0]) {
+					term = append(term, ci)
+				}
+			}
+			good := len(term) > 0
+			for _, ret := range returnsOf(rs) {
+				if isErrorExit(ret) {
+					continue
+				}
+				dom := false
+				for _, t := range term {
+					if instrDominates(t, ret) {
+						dom = true
+					}
+				}
+				if !dom {
+					good = false
+				}
+			}
+			if good {
+				o.OK("every nil-error return is dominated by the read of the line that terminates the section")
+			} else {
+				o.Bad("readSection can return successfully without consuming the section terminator (e.g. when nothing is buffered yet): with a reader that delivers the data in chunks the CRLF becomes the start of the next attachment")
 			}
 		}
 		hw := c.Func(pkg, "(Header).Write")
